@@ -261,6 +261,8 @@ Proof. vm_compute. reflexivity. Qed.
 def run(ctx):
     ctx.prove()
     t1(ctx)
+    from . import globtie
+    globtie.tie(ctx, 400 if ctx.tier == "quick" else 10000, "field filters")
     n = 3000 if ctx.tier == "quick" else 60000
     rng = ctx.rng
     cases = [gen_case(rng, odd=(i % 10 == 9)) for i in range(n)]
@@ -308,7 +310,7 @@ def run(ctx):
                 "through FieldDataComparator and MeshFieldsComparator), outcomes forced by payloads (equal, different, shape "
                 "mismatch, raising predicate, raising selector result), filters as name sets or wildcard patterns; non-trivial = "
                 ">= 2 names and (a one-sided name or a filter)")
-    return ctx.finish(assumptions=["fnmatch is an oracle: the filter's boolean table is computed by the harness and given to the model",
+    return ctx.finish(assumptions=["the filter's boolean table is computed by the harness with fnmatch and given to the model; fnmatch itself is modelled (Model/Glob.v) and compared with PatternFilter in a separate stream",
                                    "field names within one data set are distinct (dict-backed in the implementation)"],
                       trusted=["harness/c11.py"])
 
